@@ -44,16 +44,22 @@ class Schemes:
         out = self.out[key]
         paths = []
 
+        onpath = set()
+
         def dfs(n, acc):
             if limit is not None and len(paths) >= limit:
                 return
             if n == -1:
                 paths.append(list(acc))
                 return
+            if n in onpath:
+                return          # a cyclic graph (reported by Scheme.tla!Acyclic): only its simple paths are enumerated
+            onpath.add(n)
             for i in out[n]:
                 acc.append(i)
                 dfs(s["edges"][i]["dst"], acc)
                 acc.pop()
+            onpath.discard(n)
         dfs(0, [])
         return paths
 
@@ -209,8 +215,10 @@ def fmt_plan(plan):
     return "%d %s" % (len(plan), " ".join("x" if v is None else repr(v) for v in plan)) if plan else "0"
 
 
-def bjob(jid, name, seed, plans, pin=(-1, 0.5), tplan=None):
+def bjob(jid, name, seed, plans, pin=(-1, 0.5), tplan=None, betaplan=None):
     s = "B %s %s %d %d %r %d %s" % (jid, name, seed, pin[0], pin[1], len(plans), " ".join(fmt_plan(p) for p in plans))
     if tplan:
         s += " T " + fmt_plan(tplan)
+    if betaplan:
+        s += " E " + fmt_plan(betaplan)
     return s
